@@ -1653,6 +1653,7 @@ class Machine:
                               if i not in reg][0]}
             return None
         cands = []
+        need = []
         if steer < 55:
             # an owned instance of another server that is missing here
             for si in reg:
@@ -1674,6 +1675,9 @@ class Machine:
                             cands.append(dict(
                                 r.args, op='add_' + r.kind, m=mi, s=si,
                                 owned=True))
+                            if [x for x in w.referenced(sj, r)
+                                    if x.owner == o]:
+                                need.append(cands[-1])
         else:
             # explicit removal of a twin on one server
             for si in reg:
@@ -1685,9 +1689,11 @@ class Machine:
                                 kind == 'sub' or not w.referenced(si, r)):
                             cands.append({'op': op, 'm': mi, 's': si,
                                           'sel': pool.index(r)})
+        # twin subscriptions need twin filters and destinations first
         subs = [c for c in cands if c['op'] in ('add_subs', 'rm_subs')]
-        if subs and draw(_I10) < 6:
-            cands = subs        # need twin filters and destinations first
+        if (subs or need) and draw(_I10) < 7:
+            cands = subs or need
+        self.ctx.event('gen:twin:%s:subs=%d:need=%d:cands=%d' % ('add' if steer < 55 else 'rm', min(len(subs),1), min(len(need),1), min(len(cands),1)))
         if not cands:
             return None
         return cands[draw(_I1000) % len(cands)]
